@@ -22,7 +22,8 @@ var rec = vh.NewRecorder("C09", "identity-headers",
 		"x the 16 combinations of --forward-user-id, --strip-credentials, shim and session tracking, each on its own agent binary behind a "+
 		"fake proxy; oracle at a recording backend (HTTP request or websocket handshake): exactly one identity value equal to the asserted "+
 		"one / no Authorization field; with a flag off the client's values arrive unchanged; non-trivial = the client supplied a forged "+
-		"identity or an Authorization field; distinct = SHA-256 of the canonical case")
+		"identity or an Authorization field; distinct = SHA-256 of the canonical case"+
+		" Later additions: client Connection fields that nominate the identity header, Authorization or noise fields as hop-by-hop.")
 
 func TestMain(m *testing.M) { vh.Main(m, rec) }
 
